@@ -234,6 +234,14 @@ func mapField(
 		}
 		sourceMatch, err := xtype.FindExactField(nextSource, path[i])
 		if err == nil {
+			if field, ok := sourceMatch.Obj.(*types.Var); ok && !xtype.Accessible(field, ctx.OutputPackagePath) {
+				cause := fmt.Sprintf("Cannot access unexported field %q on %s.\n\nSee https://goverter.jmattheis.de/guide/unexported-field", sourceMatch.Name, nextSource.String)
+				return nil, nil, nil, nil, false, NewError(cause).Lift(&Path{
+					Prefix:     ".",
+					SourceID:   path[i],
+					SourceType: "???",
+				}).Lift(lift...)
+			}
 			nextSource = sourceMatch.Type
 			nextIDCode = nextIDCode.Clone().Dot(sourceMatch.Name)
 			liftPath := &Path{
